@@ -17,7 +17,7 @@ EXPLANATION = (
     "black-listed by every evaluation_failed implementation that promises no repeats, and removing its pending evaluations "
     "leaves other trials' entries untouched (keep-filter polarity), and the exclusion list built from the state keeps every failed trial (monotone union, shared with C06-S5); S5 exceeding the limit ends run() after clean-up with an "
     "error naming the trial; S6 reporting a failure cannot itself raise on an attribute the numerical library does not have "
-    "(external-API stub lookup on the failure path). NOT decided: that schedulers keep making legal decisions afterwards "
+    "(external-API stub lookup on the failure path). S3 also: a DEHB slot gets a trial id only with the winner's result; S4 also: the filtered pending list replaces the old one whenever it differs, also when nothing remains. NOT decided: that schedulers keep making legal decisions afterwards "
     "(needs the numeric clauses of C03-C05).")
 
 FLOOR = {"S1": 8, "S2": 3, "S3": 5, "S4": 6, "S5": 3, "S6": 3}
